@@ -470,10 +470,28 @@ func vC02NsecCase(tr *vC02Trace, g *vC02Gen, z *vC02Zone, fixed []vC02FixedProbe
 			}
 			if len(cuts) > 0 {
 				nd := cuts[r.Intn(len(cuts))]
+				if last := z.nodes[len(z.nodes)-1]; vC02Key(nd.name) == vC02Key(last.name) {
+					nd = cuts[r.Intn(len(cuts))] // prefer a cut that has names of the zone after it
+				}
 				child = g.genZone(nd.name, 1+r.Intn(4))
+				for try := 0; try < 3 && len(child.nodes) < 2; try++ { // an apex-only child has one singleton record
+					child = g.genZone(nd.name, 2+r.Intn(3))
+				}
+				// the parent's NSEC at the delegation point and the child's apex NSEC have the same owner
+				// (a conflict refuses the whole set): both together only in a quarter of such mixtures
+				parentAtCut := false
+				for _, rc := range recs {
+					if vC02Key(rc.owner) == vC02Key(nd.name) {
+						parentAtCut = true
+					}
+				}
+				skipApex := parentAtCut && r.Intn(4) > 0
 				cc := child.nsecChain()
 				all := r.Intn(3) == 0
 				for i, rc := range cc {
+					if i == 0 && skipApex {
+						continue
+					}
 					// the chain-closing record (NextDomain = the child apex) is the one that reaches
 					// furthest: replayed in two mixtures out of three, the others at random
 					if all || r.Intn(2) == 0 || (i == len(cc)-1 && r.Intn(3) > 0) {
